@@ -3,31 +3,51 @@ package dml2gen
 import (
 	"fmt"
 	"math/rand"
+	"strings"
 
 	. "gmsverif/lib/dmlast"
 	"gmsverif/lib/sqlast"
 )
 
-// TrigBody is a trigger body from one of three templates (spec/SQLTriggers.tla): audit | set | signal.
-// E is an expression over the row OLD.c1..OLD.cw ++ NEW.c1..NEW.cw (ordinals 1..2w).
-type TrigBody struct {
-	K   string `json:"k"`
-	Col int    `json:"col"`
-	E   *Expr  `json:"e"`
+// TrigStmt is one statement of a trigger body (spec/SQLTriggers.tla): audit | set | signal | uvar | ins | upd | del.
+// E / Vals are expressions over the row OLD.c1..OLD.cw ++ NEW.c1..NEW.cw (ordinals 1..2w) of the firing row;
+// T is the table an ins / upd / del statement writes (another table, with its own triggers), Op eq | ge.
+type TrigStmt struct {
+	K    string  `json:"k"`
+	Col  int     `json:"col"`
+	E    *Expr   `json:"e"`
+	T    string  `json:"t"`
+	Vals []*Expr `json:"vals"`
+	Op   string  `json:"op"`
 }
 
-// Trigger as created; Rel / Other: FOLLOWS | PRECEDES an earlier trigger of the same timing and event.
+// Trigger as created; Rel / Other: FOLLOWS | PRECEDES an earlier trigger of the same table, timing and event.
+// Body is a BEGIN .. END block of 1..3 statements.
 type Trigger struct {
-	Name   string   `json:"name"`
-	TID    int      `json:"tid"`
-	Timing string   `json:"timing"`
-	Event  string   `json:"event"`
-	Rel    string   `json:"rel"`
-	Other  string   `json:"other"`
-	Body   TrigBody `json:"body"`
+	Name   string     `json:"name"`
+	TID    int        `json:"tid"`
+	Table  string     `json:"table"`
+	Timing string     `json:"timing"`
+	Event  string     `json:"event"`
+	Rel    string     `json:"rel"`
+	Other  string     `json:"other"`
+	Body   []TrigStmt `json:"body"`
 }
 
-const TrigBase, TrigAudit = "t1", "au"
+const TrigAudit = "au"
+const TrigW = 3
+
+// TrigTables: t1 may cascade into t2 and t3, t2 into t3 (MySQL rejects a body that writes the table in use).
+var TrigTables = []string{"t1", "t2", "t3"}
+
+func (s *TrigStmt) fix() {
+	if s.E == nil {
+		s.E = Lit(sqlast.Int(0))
+	}
+	if s.Vals == nil {
+		s.Vals = []*Expr{}
+	}
+}
 
 // TrigExprSQL renders a trigger expression: ordinals 1..w are OLD.c, w+1..2w NEW.c.
 func TrigExprSQL(e *Expr, w int) string {
@@ -43,29 +63,17 @@ func TrigExprSQL(e *Expr, w int) string {
 		ops := map[string]string{"eq": "=", "plus": "+", "times": "*", "minus": "-", "ge": ">=", "and": "AND"}
 		return "(" + TrigExprSQL(e.A[0], w) + " " + ops[e.Op] + " " + TrigExprSQL(e.A[1], w) + ")"
 	case "fn":
-		s := ""
-		for i, a := range e.A {
-			if i > 0 {
-				s += ", "
-			}
-			s += TrigExprSQL(a, w)
+		var as []string
+		for _, a := range e.A {
+			as = append(as, TrigExprSQL(a, w))
 		}
-		return "COALESCE(" + s + ")"
+		return "COALESCE(" + strings.Join(as, ", ") + ")"
 	}
 	panic("trigger expression " + e.K)
 }
 
-// SQL renders CREATE TRIGGER.
-func (t Trigger) SQL(w int) string {
-	order := ""
-	if t.Rel == "follows" {
-		order = " FOLLOWS " + t.Other
-	} else if t.Rel == "precedes" {
-		order = " PRECEDES " + t.Other
-	}
-	head := fmt.Sprintf("CREATE TRIGGER %s %s %s ON %s FOR EACH ROW%s ", t.Name, map[string]string{"before": "BEFORE", "after": "AFTER"}[t.Timing],
-		map[string]string{"insert": "INSERT", "update": "UPDATE", "delete": "DELETE"}[t.Event], TrigBase, order)
-	switch t.Body.K {
+func (s TrigStmt) sql(t Trigger, w int) string {
+	switch s.K {
 	case "audit":
 		cols, vals := "tid", fmt.Sprint(t.TID)
 		for i := 1; i <= w; i++ {
@@ -84,13 +92,45 @@ func (t Trigger) SQL(w int) string {
 				vals += fmt.Sprintf(", NEW.c%d", i)
 			}
 		}
-		return head + fmt.Sprintf("INSERT INTO %s (%s) VALUES (%s)", TrigAudit, cols, vals)
+		return fmt.Sprintf("INSERT INTO %s (%s) VALUES (%s)", TrigAudit, cols, vals)
 	case "set":
-		return head + fmt.Sprintf("SET NEW.c%d = %s", t.Body.Col, TrigExprSQL(t.Body.E, w))
+		return fmt.Sprintf("SET NEW.c%d = %s", s.Col, TrigExprSQL(s.E, w))
 	case "signal":
-		return head + fmt.Sprintf("BEGIN IF %s THEN SIGNAL SQLSTATE '45000' SET MESSAGE_TEXT = 'verif-signal'; END IF; END", TrigExprSQL(t.Body.E, w))
+		return fmt.Sprintf("IF %s THEN SIGNAL SQLSTATE '45000' SET MESSAGE_TEXT = 'verif-signal'; END IF", TrigExprSQL(s.E, w))
+	case "uvar":
+		return "SET @cnt = @cnt + 1"
+	case "ins":
+		var vs []string
+		for _, v := range s.Vals {
+			vs = append(vs, TrigExprSQL(v, w))
+		}
+		return fmt.Sprintf("INSERT INTO %s (c1, c2, c3) VALUES (%s)", s.T, strings.Join(vs, ", "))
+	case "upd":
+		return fmt.Sprintf("UPDATE %s SET c3 = (COALESCE(c3, 0) + 1) WHERE (c1 %s %s) ORDER BY c1", s.T, map[string]string{"eq": "=", "ge": ">="}[s.Op], TrigExprSQL(s.E, w))
+	case "del":
+		return fmt.Sprintf("DELETE FROM %s WHERE (c1 %s %s) ORDER BY c1", s.T, map[string]string{"eq": "=", "ge": ">="}[s.Op], TrigExprSQL(s.E, w))
 	}
-	panic("trigger body " + t.Body.K)
+	panic("trigger statement " + s.K)
+}
+
+// SQL renders CREATE TRIGGER.
+func (t Trigger) SQL(w int) string {
+	order := ""
+	if t.Rel == "follows" {
+		order = " FOLLOWS " + t.Other
+	} else if t.Rel == "precedes" {
+		order = " PRECEDES " + t.Other
+	}
+	head := fmt.Sprintf("CREATE TRIGGER %s %s %s ON %s FOR EACH ROW%s ", t.Name, map[string]string{"before": "BEFORE", "after": "AFTER"}[t.Timing],
+		map[string]string{"insert": "INSERT", "update": "UPDATE", "delete": "DELETE"}[t.Event], t.Table, order)
+	if len(t.Body) == 1 && t.Body[0].K != "signal" {
+		return head + t.Body[0].sql(t, w)
+	}
+	var ss []string
+	for _, s := range t.Body {
+		ss = append(ss, s.sql(t, w))
+	}
+	return head + "BEGIN " + strings.Join(ss, "; ") + "; END"
 }
 
 // AuditCreateSQL: the audit table (seq orders the entries).
@@ -106,98 +146,208 @@ func AuditCreateSQL(w int) string {
 }
 
 type TrigHistory struct {
-	Table *Table
-	Trigs []Trigger
-	Stmts []*Stmt
+	Names  []string
+	Tables map[string]*Table
+	Trigs  []Trigger
+	Stmts  []*Stmt
 }
 
-// C23History generates one trigger set and DML history on t1(c1 INT PRIMARY KEY, c2 INT, c3 INT).
-func C23History(seed int64) *TrigHistory {
-	r := rand.New(rand.NewSource(seed ^ 0x23a23))
-	t := &Table{Cols: []Col{IntCol(), IntCol(), IntCol()}, PK: []int{1}}
-	t.Cols[0].NotNull = true
-	if r.Intn(3) == 0 {
-		t.Cols[1].NotNull = true
+// Extra returns the set-up statements after the base tables: audit table, @cnt, triggers.
+func (h *TrigHistory) Extra() []string {
+	out := []string{AuditCreateSQL(TrigW), "SET @cnt = 0"}
+	for _, t := range h.Trigs {
+		out = append(out, t.SQL(TrigW))
 	}
-	t.Fix()
-	const w = 3
-	h := &TrigHistory{Table: t}
-	old := func(i int) *Expr { return sqlast.Col(0, i, "none") }
-	nw := func(i int) *Expr { return sqlast.Col(0, w+i, "none") }
-	lit := func(v int) *Expr { return Lit(sqlast.Int(v)) }
-	n := 2 + r.Intn(5)
-	for i := 1; i <= n; i++ {
-		tr := Trigger{Name: fmt.Sprintf("tr%d", i), TID: i}
-		tr.Event = []string{"insert", "insert", "update", "update", "delete"}[r.Intn(5)]
-		tr.Timing = []string{"before", "after"}[r.Intn(2)]
-		k := r.Intn(20)
+	return out
+}
+
+type trigGen struct {
+	r *rand.Rand
+	h *TrigHistory
+}
+
+func tlit(v int) *Expr    { return Lit(sqlast.Int(v)) }
+func told(i int) *Expr    { return sqlast.Col(0, i, "none") }
+func tnew(i int) *Expr    { return sqlast.Col(0, TrigW+i, "none") }
+func coal0(e *Expr) *Expr { return sqlast.Fn("coalesce", e, tlit(0)) }
+
+// row(i): the column of the firing row an expression may read (NEW unless the event is DELETE)
+func rowRef(event string, i int) *Expr {
+	if event == "delete" {
+		return told(i)
+	}
+	return tnew(i)
+}
+
+func lower(table string) []string {
+	switch table {
+	case "t1":
+		return []string{"t2", "t3"}
+	case "t2":
+		return []string{"t3"}
+	}
+	return nil
+}
+
+func (g *trigGen) dml(table, event, kind, target string) TrigStmt {
+	key := rowRef(event, 1)
+	if g.r.Intn(4) == 0 {
+		key = sqlast.Op("plus", key, tlit(1))
+	}
+	s := TrigStmt{K: kind, T: target, E: key, Op: "eq"}
+	if kind == "ins" {
+		s.Vals = []*Expr{key, rowRef(event, 2), tlit(g.r.Intn(4))}
+		s.E = tlit(0)
+	} else if g.r.Intn(3) == 0 {
+		s.Op = "ge"
+	}
+	s.fix()
+	return s
+}
+
+func (g *trigGen) stmt(table, timing, event string) TrigStmt {
+	low := lower(table)
+	for {
+		k := g.r.Intn(100)
+		var s TrigStmt
 		switch {
-		case k < 4 && tr.Timing == "before" && tr.Event != "delete":
-			col := 2 + r.Intn(2)
+		case k < 38:
+			s = TrigStmt{K: "audit"}
+		case k < 52:
+			s = TrigStmt{K: "uvar"}
+		case k < 64:
+			if timing != "before" || event == "delete" {
+				continue
+			}
+			col := 2 + g.r.Intn(2)
 			var e *Expr
-			switch r.Intn(3) {
+			switch g.r.Intn(3) {
 			case 0:
-				e = sqlast.Op("plus", sqlast.Fn("coalesce", nw(col), lit(0)), lit(1))
+				e = sqlast.Op("plus", coal0(tnew(col)), tlit(1))
 			case 1:
-				e = sqlast.Op("times", nw(1), lit(2))
+				e = sqlast.Op("times", tnew(1), tlit(2))
 			default:
-				if tr.Event == "update" {
-					e = sqlast.Op("plus", sqlast.Fn("coalesce", old(2), lit(0)), nw(1))
+				if event == "update" {
+					e = sqlast.Op("plus", coal0(told(2)), tnew(1))
 				} else {
-					e = sqlast.Op("plus", nw(1), lit(10))
+					e = sqlast.Op("plus", tnew(1), tlit(10))
 				}
 			}
-			tr.Body = TrigBody{K: "set", Col: col, E: e}
-		case k < 7:
-			var e *Expr
-			if tr.Event == "delete" {
-				e = sqlast.Op("eq", old(1), lit(r.Intn(5)))
-			} else if r.Intn(2) == 0 {
-				e = sqlast.Op("eq", nw(1), lit(r.Intn(6)))
+			s = TrigStmt{K: "set", Col: col, E: e}
+		case k < 70:
+			if g.r.Intn(2) == 0 {
+				s = TrigStmt{K: "signal", E: sqlast.Op("eq", rowRef(event, 1), tlit(g.r.Intn(7)))}
 			} else {
-				e = sqlast.Op("eq", nw(2), lit(r.Intn(4)))
+				s = TrigStmt{K: "signal", E: sqlast.Op("eq", rowRef(event, 2), tlit(g.r.Intn(4)))}
 			}
-			tr.Body = TrigBody{K: "signal", E: e}
 		default:
-			tr.Body = TrigBody{K: "audit", E: lit(0)}
+			if len(low) == 0 {
+				continue
+			}
+			s = g.dml(table, event, []string{"ins", "ins", "upd", "del"}[g.r.Intn(4)], low[g.r.Intn(len(low))])
 		}
-		if tr.Body.E == nil {
-			tr.Body.E = lit(0)
-		}
-		// FOLLOWS / PRECEDES an earlier trigger of the same timing and event
+		s.fix()
+		return s
+	}
+}
+
+func (g *trigGen) add(table, timing, event string, body []TrigStmt, rel bool) {
+	n := len(g.h.Trigs) + 1
+	tr := Trigger{Name: fmt.Sprintf("tr%d", n), TID: n, Table: table, Timing: timing, Event: event, Body: body}
+	if rel {
 		var same []string
-		for _, o := range h.Trigs {
-			if o.Timing == tr.Timing && o.Event == tr.Event {
+		for _, o := range g.h.Trigs {
+			if o.Table == table && o.Timing == timing && o.Event == event {
 				same = append(same, o.Name)
 			}
 		}
-		if len(same) > 0 && r.Intn(2) == 0 {
-			tr.Rel = []string{"follows", "precedes"}[r.Intn(2)]
-			tr.Other = same[r.Intn(len(same))]
+		if len(same) > 0 {
+			tr.Rel = []string{"follows", "precedes"}[g.r.Intn(2)]
+			tr.Other = same[g.r.Intn(len(same))]
 		}
-		h.Trigs = append(h.Trigs, tr)
 	}
-	// at least two audit triggers of one (timing, event) so that ordering is observable
-	ev := []string{"insert", "update"}[r.Intn(2)]
-	tm := []string{"before", "after"}[r.Intn(2)]
-	for j := 0; j < 2; j++ {
-		n++
-		tr := Trigger{Name: fmt.Sprintf("tr%d", n), TID: n, Event: ev, Timing: tm, Body: TrigBody{K: "audit", E: lit(0)}}
-		if j == 1 && r.Intn(3) > 0 {
-			tr.Rel = []string{"follows", "precedes"}[r.Intn(2)]
-			tr.Other = fmt.Sprintf("tr%d", n-1)
+	g.h.Trigs = append(g.h.Trigs, tr)
+}
+
+var trigEvents = []string{"insert", "update", "delete"}
+var trigTimings = []string{"before", "after"}
+
+func evOf(kind string) string {
+	return map[string]string{"ins": "insert", "upd": "update", "del": "delete"}[kind]
+}
+
+// cascade adds: a trigger on `parent` whose BEGIN .. END body holds a DML statement on `child` among SET @cnt /
+// audit statements in a random order (the DML statement first, in the middle or last), and BEFORE + AFTER
+// triggers of the matching event on `child` (so that the cascade is observable: NEW assignment, audit entries).
+func (g *trigGen) cascade(parent, child string) {
+	ev := trigEvents[g.r.Intn(3)]
+	tm := trigTimings[g.r.Intn(2)]
+	kind := []string{"ins", "ins", "upd", "del"}[g.r.Intn(4)]
+	cev := evOf(kind)
+	if cev == "delete" {
+		g.add(child, "before", cev, []TrigStmt{{K: "audit"}}, false)
+	} else {
+		col := 2 + g.r.Intn(2)
+		g.add(child, "before", cev, []TrigStmt{{K: "set", Col: col, E: sqlast.Op("plus", coal0(tnew(col)), tlit(1))}}, false)
+	}
+	g.add(child, "after", cev, []TrigStmt{{K: "audit"}}, false)
+	body := []TrigStmt{g.dml(parent, ev, kind, child), {K: "uvar"}}
+	if g.r.Intn(2) == 0 {
+		body = append(body, TrigStmt{K: "audit"})
+	}
+	g.r.Shuffle(len(body), func(i, j int) { body[i], body[j] = body[j], body[i] })
+	g.add(parent, tm, ev, body, false)
+	for i := range g.h.Trigs {
+		for j := range g.h.Trigs[i].Body {
+			g.h.Trigs[i].Body[j].fix()
 		}
-		h.Trigs = append(h.Trigs, tr)
 	}
-	// mostly also a BEFORE trigger that assigns NEW (what it assigns is what must be stored)
-	if r.Intn(10) < 7 {
-		n++
-		col := 2 + r.Intn(2)
-		h.Trigs = append(h.Trigs, Trigger{Name: fmt.Sprintf("tr%d", n), TID: n, Event: []string{"insert", "update"}[r.Intn(2)], Timing: "before",
-			Body: TrigBody{K: "set", Col: col, E: sqlast.Op("plus", sqlast.Fn("coalesce", nw(col), lit(0)), lit(1+r.Intn(2)))}})
+}
+
+// C23History generates one trigger set over t1, t2, t3 (each c1 INT PRIMARY KEY, c2 INT, c3 INT) and a DML history.
+func C23History(seed int64) *TrigHistory {
+	r := rand.New(rand.NewSource(seed ^ 0x23a23))
+	g := &trigGen{r: r, h: &TrigHistory{Names: TrigTables, Tables: map[string]*Table{}}}
+	for _, n := range TrigTables {
+		t := &Table{Cols: []Col{IntCol(), IntCol(), IntCol()}, PK: []int{1}}
+		t.Cols[0].NotNull = true
+		if n == "t1" && r.Intn(3) == 0 {
+			t.Cols[1].NotNull = true
+		}
+		g.h.Tables[n] = t.Fix()
+	}
+	// random triggers on all tables, all six timing / event combinations, bodies of 1..3 statements
+	n := 3 + r.Intn(4)
+	for i := 0; i < n; i++ {
+		table := []string{"t1", "t1", "t2", "t2", "t3"}[r.Intn(5)]
+		tm, ev := trigTimings[r.Intn(2)], trigEvents[r.Intn(3)]
+		nst := []int{1, 1, 2, 2, 3}[r.Intn(5)]
+		var body []TrigStmt
+		for k := 0; k < nst; k++ {
+			body = append(body, g.stmt(table, tm, ev))
+		}
+		g.add(table, tm, ev, body, r.Intn(2) == 0)
+	}
+	// cascades: t1 -> t2 or t3, and (depth 2) t2 -> t3
+	if r.Intn(10) < 8 {
+		g.cascade("t1", []string{"t2", "t2", "t3"}[r.Intn(3)])
+	}
+	if r.Intn(10) < 6 {
+		g.cascade("t2", "t3")
+	}
+	// two audit triggers of one (table, timing, event) so that ordering is observable
+	{
+		ev, tm := []string{"insert", "update"}[r.Intn(2)], trigTimings[r.Intn(2)]
+		g.add("t1", tm, ev, []TrigStmt{{K: "audit"}}, false)
+		g.add("t1", tm, ev, []TrigStmt{{K: "audit"}}, r.Intn(3) > 0)
+	}
+	for i := range g.h.Trigs {
+		for j := range g.h.Trigs[i].Body {
+			g.h.Trigs[i].Body[j].fix()
+		}
 	}
 	cols := []int{1, 2, 3}
-	val := func(c int) sqlast.Value {
+	val := func(t *Table, c int) sqlast.Value {
 		if c != 1 && !t.Cols[c-1].NotNull && r.Intn(8) == 0 {
 			return sqlast.Null()
 		}
@@ -206,22 +356,24 @@ func C23History(seed int64) *TrigHistory {
 		}
 		return sqlast.Int(r.Intn(4))
 	}
-	ref := func(c int) *Expr { return ColRef(c, t.Cols[c-1]) }
-	where := func() *Expr {
-		switch r.Intn(5) {
-		case 0:
-			return sqlast.True()
-		case 1:
-			return sqlast.Op("le", ref(1), lit(r.Intn(7)))
-		case 2:
-			return sqlast.Op("ge", ref(1), lit(r.Intn(7)))
-		default:
-			return sqlast.Op("eq", ref(1), lit(r.Intn(7)))
+	m := 18 + r.Intn(10)
+	for len(g.h.Stmts) < m {
+		tn := []string{"t1", "t1", "t1", "t1", "t2", "t2", "t3"}[r.Intn(7)]
+		t := g.h.Tables[tn]
+		ref := func(c int) *Expr { return ColRef(c, t.Cols[c-1]) }
+		where := func() *Expr {
+			switch r.Intn(5) {
+			case 0:
+				return sqlast.True()
+			case 1:
+				return sqlast.Op("le", ref(1), tlit(r.Intn(7)))
+			case 2:
+				return sqlast.Op("ge", ref(1), tlit(r.Intn(7)))
+			default:
+				return sqlast.Op("eq", ref(1), tlit(r.Intn(7)))
+			}
 		}
-	}
-	pkOrder := []sqlast.Ord{{I: 1, Desc: r.Intn(2) == 0}}
-	m := 16 + r.Intn(10)
-	for len(h.Stmts) < m {
+		pkOrder := []sqlast.Ord{{I: 1, Desc: r.Intn(2) == 0}}
 		switch k := r.Intn(10); {
 		case k < 5:
 			nr := 1
@@ -230,22 +382,22 @@ func C23History(seed int64) *TrigHistory {
 			}
 			var rows [][]Cell
 			for i := 0; i < nr; i++ {
-				rows = append(rows, []Cell{ValCell(val(1)), ValCell(val(2)), ValCell(val(3))})
+				rows = append(rows, []Cell{ValCell(val(t, 1)), ValCell(val(t, 2)), ValCell(val(t, 3))})
 			}
-			h.Stmts = append(h.Stmts, Insert(TrigBase, "plain", cols, rows, nil))
+			g.h.Stmts = append(g.h.Stmts, Insert(tn, "plain", cols, rows, nil))
 		case k < 8:
 			// an UPDATE that changes every designated row (a counter column), rows in primary-key order
-			set := []SetItem{{Col: 3, E: sqlast.Op("plus", sqlast.Fn("coalesce", ref(3), lit(0)), lit(1+r.Intn(2)))}}
+			set := []SetItem{{Col: 3, E: sqlast.Op("plus", coal0(ref(3)), tlit(1+r.Intn(2)))}}
 			if r.Intn(3) == 0 {
-				set = append(set, SetItem{Col: 2, E: lit(r.Intn(4))})
+				set = append(set, SetItem{Col: 2, E: tlit(r.Intn(4))})
 			}
 			if r.Intn(6) == 0 {
-				set = append(set, SetItem{Col: 1, E: sqlast.Op("plus", ref(1), lit(1))}) // key collisions inside the statement
+				set = append(set, SetItem{Col: 1, E: sqlast.Op("plus", ref(1), tlit(1))}) // key collisions inside the statement
 			}
-			h.Stmts = append(h.Stmts, Update(TrigBase, false, set, where(), pkOrder, -1))
+			g.h.Stmts = append(g.h.Stmts, Update(tn, false, set, where(), pkOrder, -1))
 		default:
-			h.Stmts = append(h.Stmts, Delete(TrigBase, where(), pkOrder, -1))
+			g.h.Stmts = append(g.h.Stmts, Delete(tn, where(), pkOrder, -1))
 		}
 	}
-	return h
+	return g.h
 }
